@@ -1067,4 +1067,51 @@ Proof.
   rewrite Hsec. reflexivity.
 Qed.
 
+
 End Roundtrip.
+
+(* ------------------------------------------------------------------------ *)
+(* computable forms of the hypotheses, and a concrete instance              *)
+(* ------------------------------------------------------------------------ *)
+Definition desc_fill_okb (s : section) : bool :=
+  match rev (sec_params s), rev (map snd (sec_values s)) with
+  | t :: rfx, PDescs ids :: _ =>
+      match p_type t with
+      | TDescs => (Z.of_nat (sec_nbits s) <? sum_nbits (rev rfx) + 16 * Z.of_nat (length ids) + 16)%Z
+      | _ => true
+      end
+  | _, _ => true
+  end.
+
+Lemma desc_fill_okb_sound s : desc_fill_okb s = true -> desc_fill_ok s.
+Proof.
+  unfold desc_fill_okb, desc_fill_ok. intros H fx t vfx ids Hp Ht Hv.
+  rewrite Hp, Hv, !rev_app_distr in H. cbn [rev app] in H. rewrite Ht, rev_involutive in H. lia.
+Qed.
+
+(* the data hypothesis for a template decoder that takes a fixed number of bits *)
+Lemma data_ok_sec_take n props s :
+  (forall vfx b, map snd (sec_values s) = vfx ++ [PData b] -> length b = n) ->
+  data_ok_sec (fun _ r => take_bits n r) props s.
+Proof.
+  intros H fx t vfx b _ _ Hv rest. rewrite <- (H _ _ Hv). apply take_bits_app.
+Qed.
+
+Example frame_roundtrip_nonvacuous :
+  let json := [[PBytes sig_BUFR; PUint 0; PUint 3];
+               [PUint 0; PUint 0; PUint 7; PUint 98; PUint 0; PBool true; PBin (zeros 7); PUint 2; PUint 0;
+                PUint 33; PUint 0; PUint 24; PUint 5; PUint 17; PUint 12; PUint 30; PUint 0];
+               [PUint 0; PBin (zeros 8); PBin [true; false; true; true; false]];
+               [PUint 0; PBin (zeros 8); PUint 1; PBool true; PBool false; PBin (zeros 6); PDescs [31031; 31031; 31031]];
+               [PUint 0; PBin (zeros 8); PData [true; false; true]];
+               [PBytes sig_7777]]%Z in
+  exists m, encode_message true json = Ok m /\
+    forallb (fun s => fits_layout [] (sec_params s) (map snd (sec_values s))) (m_sections m) = true /\
+    forallb desc_fill_okb (m_sections m) = true /\
+    (let dd := fun (_ : list (pname * pvalue)) r => take_bits 3 r in
+     match decode_message dd (Some sig_BUFR) false false (m_bytes m ++ [1; 2; 3]%N) with
+     | Ok m' => bytes_eqb (m_bytes m') (m_bytes m) &&
+                (length (m_sections m') =? 6)%nat
+     | Err _ => false
+     end = true).
+Proof. cbv zeta. eexists. split; [vm_compute; reflexivity|]. repeat split; vm_compute; reflexivity. Qed.
